@@ -71,8 +71,12 @@ type Hooks struct {
 }
 
 type fnInfo struct {
-	index map[ssa.Value]int
-	n     int
+	index  map[ssa.Value]int
+	n      int
+	name   string
+	ext    extFn
+	inMain bool
+	skip   bool // initialiser of another package
 }
 
 type deferred struct {
@@ -203,6 +207,10 @@ func (m *Machine) info(fn *ssa.Function) *fnInfo {
 		return fi
 	}
 	fi := &fnInfo{index: map[ssa.Value]int{}}
+	fi.name = fn.String()
+	fi.ext = m.ext[fi.name]
+	fi.inMain = fn.Pkg == m.MainPkg || (fn.Parent() != nil && fn.Parent().Pkg == m.MainPkg)
+	fi.skip = fn.Pkg != nil && fn.Pkg != m.MainPkg && fn.Name() == "init" && fn.Parent() == nil && fn.Signature.Recv() == nil
 	add := func(v ssa.Value) {
 		if _, ok := fi.index[v]; !ok {
 			fi.index[v] = fi.n
@@ -330,12 +338,13 @@ func (m *Machine) call(caller *frame, pos token.Pos, fn value, args []value) val
 }
 
 func (m *Machine) callSSA(caller *frame, pos token.Pos, fn *ssa.Function, args []value, env []value) value {
-	name := fn.String()
-	if fn.Pkg != nil && fn.Pkg != m.MainPkg && fn.Name() == "init" && fn.Parent() == nil && fn.Signature.Recv() == nil {
+	fi := m.info(fn)
+	name := fi.name
+	if fi.skip {
 		return nil // initialisers of other packages are not run
 	}
 	fr := &frame{m: m, caller: caller, fn: fn}
-	if ext := m.ext[name]; ext != nil {
+	if ext := fi.ext; ext != nil {
 		m.Stubs[name]++
 		saved := m.cur
 		fr.instr = nil
@@ -343,13 +352,10 @@ func (m *Machine) callSSA(caller *frame, pos token.Pos, fn *ssa.Function, args [
 		defer func() { m.cur = saved }()
 		return ext(m, fr, args)
 	}
-	if fn.Synthetic != "" && fn.Blocks == nil {
-		abort("no code for synthetic function %s", name)
-	}
 	if fn.Blocks == nil {
-		abort("no code for function %s (assembly or external)", name)
+		abort("no code for function %s (assembly, external or synthetic)", name)
 	}
-	if fn.Pkg == m.MainPkg || (fn.Parent() != nil && fn.Parent().Pkg == m.MainPkg) {
+	if fi.inMain {
 		m.Called[name]++
 	}
 	m.depth++
@@ -361,7 +367,7 @@ func (m *Machine) callSSA(caller *frame, pos token.Pos, fn *ssa.Function, args [
 	m.cur = fr
 	defer func() { m.depth--; m.cur = saved }()
 
-	fr.info = m.info(fn)
+	fr.info = fi
 	fr.env = make([]value, fr.info.n)
 	fr.block = fn.Blocks[0]
 	for _, l := range fn.Locals {
@@ -702,10 +708,18 @@ func (m *Machine) visit(fr *frame, instr ssa.Instruction) continuation {
 		if mp == nil {
 			m.fault("assignment to entry in nil map")
 		}
-		k := m.mapKey(fr.get(instr.Key))
 		if m.Hooks.OnMap != nil {
 			m.Hooks.OnMap(m, mp, fr)
 		}
+		if hk, ok := fr.get(instr.Key).(*hashv); ok {
+			if i := m.findHashKey(mp, hk); i >= 0 {
+				mp.hkeys[i].v = copyVal(fr.get(instr.Value))
+			} else {
+				mp.hkeys = append(mp.hkeys, hashEntry{hk, copyVal(fr.get(instr.Value))})
+			}
+			return kNext
+		}
+		k := m.mapKey(fr.get(instr.Key))
 		mp.set(k, copyVal(fr.get(instr.Value)))
 
 	case *ssa.TypeAssert:
@@ -730,6 +744,20 @@ func (m *Machine) visit(fr *frame, instr ssa.Instruction) continuation {
 	return kNext
 }
 
+// findHashKey scans the abstract-hash entries of mp, deciding equality with
+// each (one decision per stored key), and returns the index of the match.
+func (m *Machine) findHashKey(mp *mapv, hk *hashv) int {
+	if len(mp.m) > 0 {
+		abort("map mixes abstract and concrete hash keys")
+	}
+	for i, e := range mp.hkeys {
+		if m.truth(m.hashEq(e.k, hk), "hash-key-equal") {
+			return i
+		}
+	}
+	return -1
+}
+
 // mapKey makes a key concrete and comparable.
 func (m *Machine) mapKey(k value) value {
 	k = m.concretizeDeep(k)
@@ -743,8 +771,20 @@ func (m *Machine) mapKey(k value) value {
 func (m *Machine) lookup(instr *ssa.Lookup, x, idx value) value {
 	switch x := x.(type) {
 	case *mapv:
-		k := m.mapKey(idx)
-		v, ok := x.get(k)
+		var v value
+		var ok bool
+		if hk, isH := idx.(*hashv); isH {
+			if x != nil {
+				if i := m.findHashKey(x, hk); i >= 0 {
+					v, ok = x.hkeys[i].v, true
+				}
+			}
+		} else {
+			if x != nil && len(x.hkeys) > 0 {
+				abort("map mixes abstract and concrete hash keys")
+			}
+			v, ok = x.get(m.mapKey(idx))
+		}
 		if !ok {
 			v = zero(instr.X.Type().Underlying().(*types.Map).Elem())
 		} else {
